@@ -122,7 +122,7 @@ def scenario(rng, findings=False):
     if has_coro:
         scn["driver"] = rng.choice(["sync", "inloop"])
     # "any object": listeners that are value-like (all compare and hash equal) or unhashable (a plain @dataclass)
-    scn["listener_kind"] = rng.choice(["attr", "attr", "equal", "unhashable", "proxy"])
+    scn["listener_kind"] = rng.choice(["attr", "attr", "equal", "unhashable", "proxy", "prop_handlers"])
     return scn
 
 
